@@ -120,6 +120,10 @@ def main(tier, seed):
             # a redeclared attribute (SELF\\sup_r.x : INTEGER) adds no constructor parameter
             if want is not None and (len([x for x in got.split(",") if x]) != want or "error" in got):
                 bad = "constructor of %s takes (%s): %d explicit attributes are inherited or own (a redeclared attribute is not a new one)" % (f[1], got, want)
+        elif f[0] == "BASE" and len(f) == 4:
+            seen_beh += 1
+            if f[3] != "ok":
+                bad = "defined type %s is declared on %s, the generated class says %s" % (f[1], f[2], f[3])
         elif f[0] == "BOUNDS" and len(f) == 3:
             seen_beh += 1
             want = {"arr_neg": "-1:3", "lst_expr": "1:5"}.get(f[1])
@@ -140,8 +144,8 @@ def main(tier, seed):
         else:
             hist["behaviour_probes"] += 1
     evals += 1
-    if seen_beh < len(BEH_DERIVE) + 8 + len(BEH_SET) and not any(l.startswith("ERR") for l in op_.split("\n")):
-        res.violation("the behaviour probe printed %d observations, %d expected: %s" % (seen_beh, len(BEH_DERIVE) + 8 + len(BEH_SET), (op_ + ep)[-300:]),
+    if seen_beh < len(BEH_DERIVE) + 14 + len(BEH_SET) and not any(l.startswith("ERR") for l in op_.split("\n")):
+        res.violation("the behaviour probe printed %d observations, %d expected: %s" % (seen_beh, len(BEH_DERIVE) + 14 + len(BEH_SET), (op_ + ep)[-300:]),
                       {"input_file": bexp}, found_input=False)
 
     def save(name, text):
